@@ -1,6 +1,15 @@
 from ..line import Line
 class Group(Line):
+
   """
   A group is a U O or P line
   """
-  pass
+
+  def _drop_unreferenced_placeholder(self, line):
+    """
+    A placeholder line (an identifier which was only mentioned) that no line
+    mentions any more does not stay in the Gfa.
+    """
+    if line.virtual and line.is_connected() and not line.all_references:
+      line.disconnect()
+
